@@ -848,6 +848,20 @@ def run(ctx):
             cases.append(dict(kind="logger", env=env, writes=[dict(ser=spec_json(sp, reg), msg=enc_msg(m2, reg), tb=(sp == "traceback"))
                                                                for _, m2, _, sp in ws]))
             metas.append(("logger", dict(ws=ws, cbs=cbs)))
+        if idef == 0:
+            # on every seed: check_for_errors with a traceback pending, alone and next to a message that breaks its type
+            # ("tracebacks first, then validation")
+            tb = next(w for w in all_msgs if w[0] == "conforming" and w[3] == "traceback")
+            bad_one = next(w for w in all_msgs if w[3] != "traceback" and not rule_accepts(w[3], w[1], cbs, "mem"))
+            for ws in ([tb], [tb, bad_one], [bad_one, tb]):
+                cases.append(dict(kind="logger", env=env, writes=[dict(ser=spec_json(sp, reg), msg=enc_msg(m2, reg), tb=(sp == "traceback"))
+                                                                   for _, m2, _, sp in ws]))
+                metas.append(("logger", dict(ws=ws, cbs=cbs)))
+                ops = [("w", w) for w in ws] + ["check", "validate"]
+                cases.append(dict(kind="ops", env=env, ops=[o if isinstance(o, str) else
+                                                            {"write": dict(ser=spec_json(o[1][3], reg), msg=enc_msg(o[1][1], reg), tb=(o[1][3] == "traceback"))}
+                                                            for o in ops]))
+                metas.append(("ops", dict(ops=ops, cbs=cbs)))
         # the declared MessageType used through every documented spelling, with conforming and deviating keyword arguments
         dn = types["defn"]
         mspec = {"message_type": dn["mt_name"], "fields": dn["mfields"]}
